@@ -14,6 +14,9 @@ Universe (the one the C12 probe `harness/c12/probe_test.go` drives on the real c
   "behaves" `cb k` while it holds k);
 * a third package `pq` (helper): builders may be created there and `Func(fA)` may be issued from there, so that the
   caller's package of `New()` / of a lookup differs from `p0`; it owns none of the unexported names;
+* a second interface variable with TWO methods `A`, `B` (`Builder.Interface(&v2).Method(..)`): its fake itab has one slot
+  per method; what is recorded is the slot content per method (`inst (.i2 j)`), the variable holds the fake iff some
+  slot is set (then an unset slot panics `notImplement`), and Cancel through either method restores the whole variable;
 * handles may be kept in registers and used later (`keep r hd`, `on r ins`), also after their mocker was cancelled or
   replaced in the builder's cache.  NOT modelled for such stale uses: the interface context's backup of the variable
   (a cancelled interface handle that is applied again) and the variable mockers' saved origin — the probe does not
@@ -42,6 +45,7 @@ inductive XName | x | y | z
 
 inductive Tgt
   | fn (i : Bool) | st (i : Bool) | im | xf (p : Pkg) (n : XName) | xs (p : Pkg)
+  | i2 (j : Bool)          -- methods A (`false`) and B (`true`) of the second, two-method interface variable
   | vr (i : Bool)          -- variables: `false` mocked with `Builder.Var(&v)`, `true` with `Builder.UnExportedVar(path)`
   deriving DecidableEq, Repr
 
@@ -66,8 +70,9 @@ structure When where
 inductive Stub | ret (v : Nat) | when_ (a : Nat) | whenRet (a v : Nat) | rets (vs : List Nat)
   deriving DecidableEq, Repr
 
-/-- what a call can yield: original ran, callback k ran, stub value, "no suitable condition" panic, index panic -/
-inductive Res | o | k (i : Nat) | v (n : Nat) | p | idx
+/-- what a call can yield: original ran, callback k ran, stub value, "no suitable condition" panic, index panic,
+    "method not implements" panic -/
+inductive Res | o | k (i : Nat) | v (n : Nat) | p | idx | n
   deriving DecidableEq, Repr
 
 namespace When
@@ -180,6 +185,7 @@ structure Builder where
   stC : Option (Bool → Option Nat) := none
   xsC : Pkg → Option (Option Nat) := fun _ => none
   ifC : Option (Nat × Option Nat) := none
+  i2C : Option (Nat × (Bool → Option Nat)) := none   -- CachedInterfaceMocker{ctx, mockers["A"|"B"]} of the two-method variable
   vrC : Bool → Option Nat := fun _ => none           -- "var_<addr>" / "ue_var_<path>"
 
 /-- the place where the code as first found differs from the repaired code (fix F7, 32dc3bc); kept so that
@@ -206,7 +212,7 @@ def init : State := {}
 /-- a builder created from package `p` (builder.go:49 New: `pkgName: currentPkg(2)`) -/
 def initP (p : Pkg) : State := { b := { pkg := p } }
 
-inductive Handle | fn (i : Bool) | st (i : Bool) | im | xf (n : XName) | xs | vr (i : Bool)
+inductive Handle | fn (i : Bool) | st (i : Bool) | im | xf (n : XName) | xs | vr (i : Bool) | i2 (j : Bool)
   deriving DecidableEq, Repr
 
 inductive Instr | look | apply (k : Nat) | stub (s : Stub) | cancel
@@ -224,7 +230,7 @@ inductive Err | methodNotFound | funcNameError | symbolNotFound | funcNameEmpty 
 
 /-- the target a handle denotes when the builder's package name is `p` -/
 def tgtOf (p : Pkg) : Handle → Tgt
-  | .fn i => .fn i | .st i => .st i | .im => .im | .xf n => .xf p n | .xs => .xs p | .vr i => .vr i
+  | .fn i => .fn i | .st i => .st i | .im => .im | .xf n => .xf p n | .xs => .xs p | .vr i => .vr i | .i2 j => .i2 j
 
 /-- raw content of the cache slot that belongs to target `t` -/
 def slot (s : State) : Tgt → Option Nat
@@ -234,6 +240,7 @@ def slot (s : State) : Tgt → Option Nat
   | .im => match s.b.ifC with | some (_, c) => c | none => none
   | .xs p => match s.b.xsC p with | some c => c | none => none
   | .vr i => s.b.vrC i
+  | .i2 j => match s.b.i2C with | some (_, c) => c j | none => none
 
 /-- cache hit test `ok && !mocker.Canceled()` -/
 def liveOf (s : State) (c : Option Nat) : Option Nat :=
@@ -283,6 +290,16 @@ def ifaceLookup (s : State) : State × Nat × Option Nat :=
   | none =>
     (reset2CurPkg { s with ctxc := upd s.ctxc s.nctx false, nctx := s.nctx + 1, b := { s.b with ifC := some (s.nctx, none) } }, s.nctx, none)
 
+/-- the same for the two-method interface variable; the cached mocker's `mockers` map has an entry per method -/
+def iface2Lookup (s : State) : State × Nat × (Bool → Option Nat) :=
+  match s.b.i2C with
+  | some (c, inner) =>
+    if s.ctxc c then
+      (reset2CurPkg { s with ctxc := upd s.ctxc s.nctx false, nctx := s.nctx + 1, b := { s.b with i2C := some (s.nctx, fun _ => none) } }, s.nctx, fun _ => none)
+    else (reset2CurPkg s, c, inner)
+  | none =>
+    (reset2CurPkg { s with ctxc := upd s.ctxc s.nctx false, nctx := s.nctx + 1, b := { s.b with i2C := some (s.nctx, fun _ => none) } }, s.nctx, fun _ => none)
+
 /-- the lookups.  Every branch ends in `reset2CurPkg` exactly where the source does. -/
 def lookup (s : State) : Handle → State × Nat
   | .fn i =>                                                   -- builder.go:102 Func
@@ -319,6 +336,13 @@ def lookup (s : State) : Handle → State × Nat
     | none =>                                                  -- NewUnexportedMethodMocker(m.pkgName, structName) + Method(name):
       let (s1, mid) := alloc s0 { tgt := .xs p }               --   m.pkgName is the package of the key
       ({ s1 with b := { s1.b with xsC := upd s1.b.xsC p (some (some mid)) } }, mid)
+  | .i2 j =>
+    let (s0, c, inner) := iface2Lookup s
+    match liveOf s0 (inner j) with                             -- cache.go:140 Method
+    | some mid => (s0, mid)
+    | none =>
+      let (s1, mid) := alloc s0 { tgt := .i2 j, ctx := some c }
+      ({ s1 with b := { s1.b with i2C := some (c, upd inner j (some mid)) } }, mid)
   | .im =>
     let (s0, c, inner) := ifaceLookup s
     match liveOf s0 inner with                                 -- cache.go:140 Method
@@ -332,6 +356,10 @@ def isPhantom : Tgt → Bool
   | .xf _ .z => true
   | .xf .pq _ => true
   | .xs .pq => true
+  | _ => false
+
+def isI2 : Tgt → Bool
+  | .i2 _ => true
   | _ => false
 
 def isVar : Tgt → Bool
@@ -369,7 +397,9 @@ def cancelM (s : State) (mid : Nat) : State :=
   let s1 : State :=
     if m.guard then
       match m.ctx with
-      | some c => setInst { s with ctxc := upd s.ctxc c true } .im .orig
+      | some c =>                                                -- ctx.Cancel(): `*originIface = *originIfaceValue` restores the WHOLE variable
+        if isI2 m.tgt then setInst (setInst { s with ctxc := upd s.ctxc c true } (.i2 false) .orig) (.i2 true) .orig
+        else setInst { s with ctxc := upd s.ctxc c true } .im .orig
       | none => setInst s m.tgt .orig
     else s
   setM s1 mid { m with when := none, canceled := true }
@@ -389,7 +419,7 @@ def cachedMids (s : State) : List Nat :=
   ([s.b.fnC false, s.b.fnC true]
     ++ (allPkgs.flatMap fun p => allNames.map fun n => s.b.xfC p n)
     ++ [slot s (.st false), slot s (.st true), slot s .im, slot s (.xs .p0), slot s (.xs .p1), slot s (.xs .pq),
-        s.b.vrC false, s.b.vrC true]).filterMap id
+        s.b.vrC false, s.b.vrC true, slot s (.i2 false), slot s (.i2 true)]).filterMap id
 
 /-- builder.go:193 `Reset`: Cancel on every cached mocker (cancelled ones included) -/
 def resetB (s : State) : State := (cachedMids s).foldl cancelM s
@@ -428,7 +458,10 @@ def step (v : Variant) (s : State) : Op → State × StepRes
     (mocker.go:142 `callback`) -/
 def call (s : State) (t : Tgt) (a : Nat) : State × Res :=
   match s.inst t with
-  | .orig => (s, .o)
+  | .orig =>
+    match t with                                                 -- a method of a faked interface variable that has no mock of
+    | .i2 j => if s.inst (.i2 (!j)) = .orig then (s, .o) else (s, .n)   --   its own: `notImplement` panics (make_interface.go:63)
+    | _ => (s, .o)
   | .cb k => (s, .k k)
   | .via mid =>
     let m := s.mks mid
@@ -440,7 +473,7 @@ def call (s : State) (t : Tgt) (a : Nat) : State × Res :=
 
 def obsTgts : List Tgt :=
   [.fn false, .fn true, .st false, .st true, .im, .xf .p0 .x, .xf .p0 .y, .xf .p1 .x, .xf .p1 .y, .xs .p0, .xs .p1,
-   .vr false, .vr true]
+   .vr false, .vr true, .i2 false, .i2 true]
 
 def obsCalls : List (Tgt × Nat) := obsTgts.flatMap fun t => [(t, 1), (t, 2)]
 
